@@ -8,7 +8,8 @@
    case is c01_refuted_retrybatch). *)
 From Coq Require Import List ZArith Bool.
 From SV Require Import Producer.Msg Producer.Actors Producer.Compose Producer.Weights Producer.Global
-                       Producer.Shape Producer.Conservation Producer.Shutdown Producer.Progress Producer.Markers Producer.Examples.
+                       Producer.Shape Producer.Conservation Producer.Shutdown Producer.Progress Producer.Markers Producer.Examples
+                       Gen.GoInt Gen.DecTypes Gen.DecTypes2 Gen.DecC01 Producer.DecTie.
 Import ListNotations.
 Open Scope Z_scope.
 
@@ -109,3 +110,69 @@ Theorem c01_refuted_retrybatch :
   g_inflight s = 1 /\ total f1 s = 0 /\ g_panic s = None.
 Proof. exact refuted_retrybatch. Qed.
 Print Assumptions c01_refuted_retrybatch.
+
+(* ---- ties of the model's leaf decisions to the definitions regenerated from the source on every run (decgen group
+   C01; the check proves regenerated = golden, these lemmas prove golden = model) *)
+Theorem c01_tie_retry_message : forall c m e (err : gerr),
+  let '(r', acts) := DecC01.retry_message (Z.of_nat (m_retries m)) err (Z.of_nat (c_retry_max c)) in
+  match retry_msg c m e with
+  | EErr m' e' => acts = [PA_return_error err] /\ m' = m /\ e' = e /\ r' = Z.of_nat (m_retries m)
+  | ESend DRetry m' => acts = [PA_retry] /\ m' = set_retries m (S (m_retries m)) /\ r' = Z.of_nat (m_retries m')
+  | _ => False
+  end.
+Proof. exact retry_msg_is_decgen. Qed.
+Print Assumptions c01_tie_retry_message.
+
+Theorem c01_tie_needs_retry : forall st m,
+  DecC01.needs_retry (gerr_of (b_closing st)) (gerr_of (cur_lookup (msg_key m) (b_cur st))) = gerr_of (Actors.needs_retry st m).
+Proof. exact needs_retry_is_decgen. Qed.
+Print Assumptions c01_tie_needs_retry.
+
+Theorem c01_tie_bp_input_class : forall c ep st m tn, b_mode st = MRun -> b_wait st = WNone ->
+  bp_core c ep st (BRecv m) =
+  match bp_input_class (m_flags m) (gerr_of (b_closing st)) (gerr_of (cur_lookup (msg_key m) (b_cur st))) tn with
+  | (acts, ExFall) => recv_data c st m
+  | (acts, _) => (bp_acts_state st m acts, bp_acts_effs c m acts, false)
+  end.
+Proof. exact bp_input_class_is_decgen. Qed.
+Print Assumptions c01_tie_bp_input_class.
+
+Theorem c01_tie_wait_for_space_recheck : forall c ep st sent r m,
+  let '(st1, effs) := handle_response c ep st sent r in
+  b_wait st1 = WOver m ->
+  bp_core c ep st (BResp sent r) =
+  match wait_for_space_recheck false (gerr_of (b_closing st1)) (gerr_of (cur_lookup (msg_key m) (b_cur st1)))
+                               (would_overflow c (b_buf st1) m) with
+  | ExReturn ENil => let '(st2, e2, u) := after_over c (with_wait st1 WNone) m in (st2, effs ++ e2, u)
+  | ExReturn e => (with_wait st1 WNone, effs ++ [retry_msg c m (code_of e)], false)
+  | _ => (st1, effs, false)
+  end.
+Proof. exact bp_wait_over_follows_recheck. Qed.
+Print Assumptions c01_tie_wait_for_space_recheck.
+
+Theorem c01_tie_pp_level_class : forall (r hwm : nat) (flags : Z),
+  pp_level_class (Z.of_nat r) (Z.of_nat hwm) flags =
+  if (hwm <? r)%nat then ([PP_new_high_watermark (Z.of_nat r); PP_backoff (Z.of_nat r)], ExFall)
+  else if (0 <? hwm)%nat then
+    if (r <? hwm)%nat then
+      ((if Z.land flags 2 =? 2 then [PP_expect_chaser (Z.of_nat r) false; PP_inflight_done] else [PP_buffer (Z.of_nat r)]), ExContinue)
+    else if Z.land flags 2 =? 2 then ([PP_expect_chaser (Z.of_nat hwm) false; PP_flush_retry_buffers; PP_inflight_done], ExContinue)
+    else ([], ExFall)
+  else ([], ExFall).
+Proof. exact pp_level_class_is_decgen. Qed.
+Print Assumptions c01_tie_pp_level_class.
+
+Theorem c01_tie_pp_buffer_branch : forall c t p st m stamp ls,
+  fst (pp_level_class (Z.of_nat (m_retries m)) (Z.of_nat (p_hwm st)) (m_flags m)) = [PP_buffer (Z.of_nat (m_retries m))] ->
+  (m_retries m < length (p_levels st))%nat ->
+  pp_step c t p st m false stamp ls =
+  (mkPp (p_hwm st) (push_buf (m_retries m) m (p_levels st)) (p_has_bp st) (p_leader st), []).
+Proof. exact pp_buffer_branch. Qed.
+Print Assumptions c01_tie_pp_buffer_branch.
+
+Theorem c01_tie_pp_stamp_sequence : forall c m sq ep,
+  pp_stamp_sequence (m_seq m) (m_epoch m) (m_hasseq m) (c_idem c) (Z.of_nat (m_retries m)) (m_flags m) sq ep =
+  let m' := if c_idem c && fresh_pass m && is_data m then set_stamp m sq ep else m in
+  (m_seq m', m_epoch m', m_hasseq m', ExFall).
+Proof. exact pp_stamp_is_decgen. Qed.
+Print Assumptions c01_tie_pp_stamp_sequence.
